@@ -379,6 +379,14 @@ def rule_tm5(ctx: Ctx) -> RuleResult:
         for p in ctx.paths(spec, "Create", cfg, max_iter=1):
             r.paths += 1
             its = [e for e in p.trace if e.k == "loopiter"]
+            # a loop that only stores None / False into the key's slots re-initialises them (ST-5); it is not a growth step
+
+            def _resets_only(it):
+                pos = p.trace.index(it)
+                end = next((k for k in range(pos + 1, len(p.trace)) if p.trace[k].k in ("loopiter", "loopexit")), len(p.trace))
+                body = [e for e in p.trace[pos + 1:end] if e.k in ("substore", "mutate", "call", "emit", "nonlocal")]
+                return bool(body) and all(e.k == "substore" and e.value[0] == "const" and e.value[1] in (None, False) for e in body)
+            its = [it for it in its if not _resets_only(it)]
             fw = [m for m in mux_emissions(p) if m.event is not None and m.event.kind == "Create"]
             if not fw:
                 continue
